@@ -10,5 +10,5 @@ fi
 { echo "-Q . NT"; ls Base/*.v Model/*.v Check/*.v Proofs/*.v Props/*.v 2>/dev/null || true; } > _CoqProject.new
 if ! cmp -s _CoqProject.new _CoqProject 2>/dev/null; then mv _CoqProject.new _CoqProject; coq_makefile -f _CoqProject -o Makefile >/dev/null 2>&1; else rm _CoqProject.new; fi
 [ -f Makefile ] || coq_makefile -f _CoqProject -o Makefile >/dev/null 2>&1
-timeout 2400 make -j16 2>&1 | grep -v 'WARNING conda' | tail -30
+timeout 2400 make -j16 $1 2>&1 | grep -v 'WARNING conda' | tail -30
 exit ${PIPESTATUS[0]}
